@@ -495,7 +495,7 @@ def check_key_cases(cases, outs):
     return None
 
 
-NATIVE_POOL = ['uaura', 'uatom', 'uusd', 'aaa', 'aaab', 'bccc', 'ccc', 'uau']
+NATIVE_POOL = ['uaura', 'uatom', 'uusd', 'aaa', 'aaab', 'bccc', 'ccc', 'uau', 'ibc/27394FB092D2ECCD']
 
 
 def gen_registry_scenario(rng):
@@ -517,6 +517,12 @@ def gen_registry_scenario(rng):
                 b = a
             if rng.random() < 0.1:
                 b = {'native': 'unregistered'}
+            elif rng.random() < 0.12:
+                # a look-alike of a registered denom (other case / extended / truncated): a different, unregistered bank denom
+                d0 = rng.choice(nat)
+                cand = [x for x in (d0.lower(), d0.upper(), d0 + 'x', d0[:-1], d0.swapcase()) if x not in nat and len(x) >= 3]
+                if cand:
+                    b = {'native': rng.choice(cand)}
             if created and rng.random() < 0.3:
                 a, b = rng.choice(created)
                 if rng.random() < 0.7:
